@@ -61,6 +61,14 @@ def field_plan(i, f, salt, as_parent=False):
         dv = [1 + i, 2 + i, 3 + i]
         vals = dict(default=dv, zero=[0, 0, 0], other=[2 + i, 3 + i, 4 + i])
         base, conv = T[3], (lambda v: list(v))
+        if (salt + i) % 4 == 1:     # "scalar arrays of any shape": 2-D, the other value differs from the default OUTSIDE the first column only
+            dv = [[1 + i, 2 + i, 3 + i], [4 + i, 5 + i, 6 + i]]
+            vals = dict(default=dv, zero=[[0, 0, 0], [0, 0, 0]], other=[[1 + i, 2 + i, 3 + i], [4 + i, 5 + i, 9 + i]])
+            base, conv = T[2, 3], (lambda v: [list(r) for r in v])
+        elif (salt + i) % 4 == 3:   # 3-D in F order, differing in one inner item only
+            dv = [[[1 + i, 2 + i], [3 + i, 4 + i]], [[5 + i, 6 + i], [7 + i, 8 + i]]]
+            vals = dict(default=dv, zero=[[[0, 0], [0, 0]], [[0, 0], [0, 0]]], other=[[[1 + i, 2 + i], [3 + i, 4 + i]], [[5 + i, 6 + i], [7 + i, 0]]])
+            base, conv = T[2:2, 2:1, 2:0], (lambda v: [[list(r) for r in m] for m in v])
     elif kind == "darr":
         dv = [1 + i, 2 + i]
         vals = dict(default=dv, zero=[], other=[5 + i, 6 + i], otherlen=[5 + i, 6 + i, 7 + i])
